@@ -517,6 +517,11 @@ func (u *Upstream) withAckTimeoutCh(ctx context.Context, inCh <-chan *message.Up
 		defer cancel()
 		select {
 		case <-timeoutCtx.Done():
+			if ctx.Err() != nil {
+				// the run context ended (disconnect or close); this is not an ack timeout,
+				// the chunk must stay in the sent storage so that it can be retransmitted
+				return
+			}
 			select {
 			case <-ctx.Done():
 			case <-u.ctx.Done():
